@@ -1,5 +1,5 @@
 """One entry per property: which rules run over which configurations."""
-from rules import fd, tls, router
+from rules import fd, tls, router, decode
 
 LEVEL = {}
 
@@ -85,11 +85,37 @@ def check_C07(ctx):
     ctx.assume("Result::map runs its closure iff the receiver is Ok; crossbeam and the receiver set deliver in order (C06)")
 
 
+LEVEL["C16"] = ("Decides the structural clause of C16 only: no panic source is reachable inside the decode closure (DECODE-NOPANIC, with the RefCell "
+                "borrows justified by BORROW-SCOPE); every attachment is moved out of its slot when handed out, so a reused or out-of-range index "
+                "takes the error path (DECODE-TAKE-ONCE); library code never unwraps a decode result (DECODE-RESULT-UNWRAP); attachments that were "
+                "never handed out are closed by Drop (FD-DROP of the opaque channel type). Not decided: which error is returned; bincode/serde "
+                "internals on hostile input (external cut point).")
+
+
+def check_C16(ctx):
+    for cfg, F in ctx.configs(["K1", "K3"]):
+        D = decode.rule_decode_nopanic(ctx, cfg, F)
+        ctx.rule("DECODE-NOPANIC").floor("decode_fns[%s]" % cfg, 15, cfg)
+        decode.rule_borrow_scope(ctx, cfg, F, D)
+        ctx.rule("BORROW-SCOPE").floor("borrows[%s]" % cfg, 6, cfg)
+        decode.rule_take_once(ctx, cfg, F, D)
+        ctx.rule("DECODE-TAKE-ONCE").floor("conversion_sites[%s]" % cfg, 3, cfg)
+        decode.rule_result_unwrap(ctx, cfg, F)
+        ctx.rule("DECODE-RESULT-UNWRAP").floor("decode_calls[%s]" % cfg, 4, cfg)
+    for cfg, F in ctx.configs(["K1", "K2"]):
+        model = fd.build_model(F)
+        fd.rule_fd_drop(ctx, cfg, F, model)
+    ctx.assume("bincode and serde return Err (do not panic or over-allocate) on malformed input")
+    ctx.assume("RefCell::borrow_mut / LocalKey::with are not input-dependent panic sources (BORROW-SCOPE checks the former)")
+
+
 # --------------------------------------------------------------------------- registry metadata
 NOT_APPLICABLE = {}
 WITNESS_PROPS = []
 _TECH = "static analysis over rustc MIR facts: "
 META = {
+    "C16": {"technique": _TECH + "call-graph closure of the decode entry points, enumeration of panic sources, provenance of converted attachments",
+            "note": "trusted: bincode/serde are cut points that return Err; allocation failure out of scope; macOS/Windows backends not analysed"},
     "C17": {"technique": _TECH + "path-sensitive exploration of the router loop with accumulated event/control facts; dominance rules on the proxy",
             "note": "trusted: IpcReceiverSet semantics (C06); user callbacks do not re-enter the proxy; unwind paths excluded"},
     "C07": {"technique": _TECH + "pairing/post-dominance of control and wake-up sends; provenance of table keys and dispatched messages along feasible paths",
